@@ -226,9 +226,14 @@ def gen_C09(rng, tier):
             ]),
         }
         scn["cfg"]["audit"] = True
-    elif r < 0.5:
+    if rng.random() < 0.3:
+        # ... and/or a job is killed (after a scheduler crash nobody cleans up behind it)
         x = rng.randrange(n)
-        scn["jobfaults"].append({"x": x, "sig": rng.choice(["KILL", "TERM", "INT"]), "when": "body"})
+        scn["jobfaults"].append({"x": x, "sig": rng.choice(["KILL", "KILL", "TERM", "INT"]), "when": "body"})
+    if rng.random() < 0.2:
+        scn["cfg"]["pid_reuse"] = True
+    if rng.random() < 0.4:
+        scn["cfg"]["readdir_shuffle"] = True
     return scn
 
 
@@ -299,6 +304,7 @@ def gen_C16(rng, tier):
             if rng.random() < 0.4:
                 spec["start"]["jobs_ended"] = True
         scn["procs"].append(spec)
+    scn["cfg"]["readdir_shuffle"] = rng.random() < 0.4
     if rng.random() < 0.3:
         # a contender entering the same experiment while somebody may hold it
         sub = sorted(rng.sample(range(n), rng.randint(1, n)))
@@ -392,6 +398,7 @@ def gen_C19(rng, tier):
             spec["start"] = {"after_exit": nruns - 1, "jobs_ended": True}
         scn["procs"].append(spec)
     maybe_trace(rng, scn, 0.3 if concurrent else 0.0)
+    scn["cfg"]["readdir_shuffle"] = rng.random() < 0.4
     return scn
 
 
@@ -406,17 +413,23 @@ def gen_C20(rng, tier):
     scn["procs"].append({"xp": "x0", "variant": "old", "plan": plan})
     scn["procs"].append({"kind": "deprecate", "start": {"after_exit": 0, "jobs_ended": True}})
     nfix = rng.randint(1, 3)
+    linked_then_cleanup = rng.random() < 0.3     # previously linked workspace, then asked to clean up
+    if linked_then_cleanup:
+        nfix = 2
     for i in range(nfix):
         last = i == nfix - 1
         op = {"fix": True if last else rng.random() < 0.8, "cleanup": rng.random() < 0.5}
+        if linked_then_cleanup:
+            op = {"fix": True, "cleanup": last}
         spec = {"kind": "fix", "ops": [op], "start": {"after_exit": len(scn["procs"]) - 1}}
-        if not last and rng.random() < 0.7:
+        if not last and rng.random() < (0.3 if linked_then_cleanup else 0.7):
             spec["crash"] = {"sig": "KILL", "trigger": {"line_frac": rng.random()}}
         elif last and rng.random() < 0.25:
             spec["ops"].append({"fix": True, "cleanup": rng.random() < 0.5})
         scn["procs"].append(spec)
     scn["procs"].append({"xp": "x0", "variant": "new", "plan": simple_plan(rng, n, waits=False) + [["xpwait"]],
                          "start": {"after_exit": len(scn["procs"]) - 1}})
+    scn["cfg"]["readdir_shuffle"] = rng.random() < 0.6
     return scn
 
 
